@@ -586,6 +586,9 @@ pub fn replay_path<Sc: Scenario>(scn: &Sc, base: &str, path: &[(Sc::A, Vec<usize
         if let Some(v) = st.violation {
             return Ok(Some(format!("step {i} {a:?}: {v}")));
         }
+        for k in &st.known {
+            println!("KNOWN-FINDING reproduced at step {i} {a:?}: {} {}", k.id, k.text);
+        }
         match st.next {
             Some(n) => s = n,
             None => return Err(format!("step {i} {a:?} not applicable")),
